@@ -192,7 +192,8 @@ inductive CV
 
 instance : Inhabited CV := ⟨.empty⟩
 
-def mkNum (x : Float) : CV := if isNaN x then .err "#NUM!" else .num x
+/-- `newNumberFormulaArg` (repository fix 2426175): NaN and ±Inf are the error argument #NUM! -/
+def mkNum (x : Float) : CV := if isNaN x || x.isInf then .err "#NUM!" else .num x
 
 partial def CV.value : CV → String
   | .num x => fmtG x
@@ -213,9 +214,9 @@ def CV.number : CV → Float
 /-- ToNumber: `none` stands for the error argument -/
 partial def CV.toNumber : CV → Option Float
   | .str s => match parseF s with
-    | some x => if isNaN x then none else some x
+    | some x => if isNaN x || x.isInf then none else some x
     | none => none
-  | .num x => some x
+  | .num x => if isNaN x || x.isInf then none else some x
   | .bool b => some (if b then 1.0 else 0.0)
   | .matrix m => match m.flatten with
     | [] => some 0.0
@@ -284,7 +285,11 @@ def binOp (op : String) (r l : CV) : BinRes CV :=
   let (r, l) := if op != "&" then (blank0 r, blank0 l) else (r, l)
   if r.isErrT then .err else if l.isErrT then .err else
   match op with
-  | "^" => arith (fun a b => Float.pow a b) false r l
+  | "^" =>
+    -- calcPow (repository fix bbdf303): after both conversions, 0^0 is #NUM! and 0^negative is #DIV/0!
+    match l.toNumber, r.toNumber with
+    | some a, some b => if a == 0.0 && (b == 0.0 || b < 0.0) then .err else .push (mkNum (Float.pow a b))
+    | _, _ => .err
   | "*" => arith (· * ·) false r l
   | "/" => arith (· / ·) true r l
   | "+" => arith (· + ·) false r l
@@ -343,13 +348,24 @@ def callFnC (name : String) (args : List CV) : CV :=
   else if n == "NA" then (if args.length != 0 then .err "NA accepts no arguments" else .err "#N/A")
   else .err ("not support " ++ n ++ " function")
 
+def unaryC (f : Float → Float) (v : CV) : Option CV :=
+  let v := blank0 v
+  if v.isErrT then none else
+  match v.toNumber with
+  | none => none
+  | some x => some (mkNum (f x))
+
 def semC : Sem CV where
   ofTok := ofTokC
-  neg := fun v => mkNum (0.0 - (match v.toNumber with
-    | some x => x
-    | none => 0.0))
-  pct := fun v => mkNum (v.number / 100.0)
-  sub2 := fun r l => arith (· - ·) false (blank0 r) (blank0 l)
+  -- prefix minus (repository fix e2ee6cd) and postfix % (85214fa): blank → 0, an error operand is
+  -- returned as the error, ToNumber must succeed
+  neg := fun v => unaryC (fun x => 0.0 - x) v
+  pct := fun v => unaryC (fun x => x / 100.0) v
+  -- calcSubtract (repository fix 13588ca): blank → 0, then the ArgError checks (right, left), then ToNumber
+  sub2 := fun r l =>
+    let r := blank0 r
+    let l := blank0 l
+    if r.isErrT then .err else if l.isErrT then .err else arith (· - ·) false r l
   bin := binOp
   resolve := fun s => fixture (s.replace "$" "")
   refKind := fun v => match v with
